@@ -268,7 +268,7 @@ def fmt_plain(v):
 # -------------------------------------------------------------------------------------------------
 class Scenario(object):
     def __init__(self, name, fn, params=None, cover=(), twin=True, bounds=None, budget_s=None,
-                 excludable=(), nra_mode="hybrid"):
+                 excludable=(), nra_mode="oneshot"):
         self.nra_mode = nra_mode
         self.name = name
         self.fn = fn
